@@ -186,7 +186,7 @@ func manifest(o sysObj) *unstructured.Unstructured {
 	if o.ID[3] != "" {
 		m["kind"] = o.ID[3]
 	}
-	if o.ID[3] != "Namespace" {
+	if o.ID[3] == "ConfigMap" || o.ID[3] == "Secret" || kindOf(o.ID[2], o.ID[3]) == nil {
 		data := map[string]interface{}{"rev": fmt.Sprint(o.Rev)}
 		if o.MutFrom != nil {
 			data["from"] = "unset"
